@@ -112,11 +112,42 @@ func vsimRun(r *sim.Run) {
 			r.Violate("c11-combine-init", "combined init: track %d has id %d / trex missing", i, di.Movie.Tracks[i].ID)
 		}
 	}
+	pdi := make([]*ref.Demux, len(prods)) // reference view of every input init (trex defaults)
+	for i, p := range prods {
+		d, err := ref.DemuxStream(p.InitBytes, nil)
+		if err != nil || d.Movie == nil {
+			panic(sim.HarnessAbort{Msg: "input init not readable by the reference"})
+		}
+		pdi[i] = d
+	}
 	for si := 0; si < nSegs; si++ {
 		var files []string
 		for i, p := range prods {
 			fn := filepath.Join(dir, fmt.Sprintf("t%d_%d.m4s", i, si))
-			if err := os.WriteFile(fn, p.Segs[si].Bytes, 0o644); err != nil {
+			segBytes := p.Segs[si].Bytes
+			if t.Chance(200) {
+				// media data with bytes no sample refers to (in front of the first sample and/or after the last one);
+				// validated against the reference demuxer: every sample is still found with its bytes
+				if nb, err := work.PadMdat(segBytes, t.Draw(3)*(1+t.Draw(16)), t.Draw(3)*(1+t.Draw(16))); err == nil {
+					dp, err := ref.DemuxStream(nb, pdi[i].Movie.Trex)
+					ok := err == nil
+					if ok {
+						fr := p.Segs[si].Frags[0]
+						want := p.Log[0][fr.From[0]:fr.To[0]]
+						got := dp.TrackSamples(1)
+						ok = len(got) == len(want)
+						for k := 0; ok && k < len(want); k++ {
+							ok = bytes.Equal(got[k].Bytes(nb), want[k].Data)
+						}
+					}
+					if !ok {
+						panic(sim.HarnessAbort{Msg: "padded mdat variant is not consistent"})
+					}
+					segBytes = nb
+					r.Probe("input-mdat-with-unreferenced-bytes")
+				}
+			}
+			if err := os.WriteFile(fn, segBytes, 0o644); err != nil {
 				panic(sim.HarnessAbort{Msg: err.Error()})
 			}
 			files = append(files, fn)
